@@ -92,7 +92,9 @@ func vfE1Spelling(r *vfRand, maxReqMs uint64, tcpSafe bool) string {
 		default:
 			s = u(r.Next() >> uint(r.Intn(64)))
 		}
-		if tcpSafe && strings.ContainsAny(s, " \n") {
+		// on the wire a command line is split at spaces and its trailing "\n" / "\r\n" removed:
+		// such spellings are not one parameter
+		if tcpSafe && (strings.ContainsAny(s, " \n") || strings.HasSuffix(s, "\r")) {
 			continue
 		}
 		return s
